@@ -751,7 +751,11 @@ func (m *Manager) configureTasks(envId uid.ID, tasks Tasks) error {
 
 	cmd := controlcommands.NewMesosCommand_Transition(envId, receivers, src, event, dest, args)
 	cmd.ResponseTimeout = 120 * time.Second // The default timeout is 90 seconds, but we need more time for the tasks to configure
-	_ = m.cq.Enqueue(cmd, notify)
+	err = m.cq.Enqueue(cmd, notify)
+	if err != nil {
+		// the command was not accepted by the queue, so nobody will ever answer on notify
+		return err
+	}
 
 	response := <-notify
 	close(notify)
@@ -836,7 +840,11 @@ func (m *Manager) transitionTasks(envId uid.ID, tasks Tasks, src string, event s
 	}
 
 	cmd := controlcommands.NewMesosCommand_Transition(envId, receivers, src, event, dest, args)
-	_ = m.cq.Enqueue(cmd, notify)
+	err = m.cq.Enqueue(cmd, notify)
+	if err != nil {
+		// the command was not accepted by the queue, so nobody will ever answer on notify
+		return err
+	}
 
 	response := <-notify
 	close(notify)
